@@ -62,7 +62,8 @@ def gen_sort_case(rnd):
     q = select([["star"]], table("t"), order=order, limit=limit, offset=offset,
                limit_spelling=rnd.choice([0, 1]))
     mode = "sorted" if limit is None else "keyseq"
-    return mk_case({"t": rows}, q, mode=mode, order_keys=[[k] for k in keys], source_rows=rows, tag="sort", num_kind=nk)
+    return mk_case({"t": rows}, q, mode=mode, order_keys=[[k] for k in keys], source_rows=rows, tag="sort", num_kind=nk,
+                   tables="maps" if rnd.random() < 0.15 else None)
 
 
 NUM_KINDS = ["int", "int64", "int32", "int16", "int8", "uint", "uint64", "uint32", "uint16", "uint8", "float32", "mixed"]
